@@ -20,6 +20,8 @@ import glob
 import itertools
 import json
 import os
+import re
+import threading
 import vcommon as V
 import sm_util as S
 import c18_util as C
@@ -58,6 +60,54 @@ def conc_case(rng, n):
     reqs = [{"path": rng.choice(paths), "v": rng.choice([0, 0, 0, 1, 2, 3, 4, 5]), "maxage": rng.choice([None, 60])}
             for _ in range(n)]
     return vs, reqs
+
+
+def slow_origin_case(rng, delay_ms, n_follow, with_pass=False):
+    """ORIGIN LATENCY: request 0 fetches a cacheable URL from an origin that answers after delay_ms; the others
+    arrive DURING that fetch - lookups of the same URL (one-at-a-time: exactly one origin fetch, the rest HIT),
+    and requests for other URLs that bump the shared counter"""
+    vs = conc_variants(rng)
+    reqs = [{"path": "/slow", "v": 0, "maxage": 60, "delay_ms": delay_ms, "start_ms": 0}]
+    for j in range(n_follow):
+        at = int(delay_ms * (j + 1) / (n_follow + 1))
+        if rng.random() < 0.6:
+            reqs.append({"path": "/slow", "v": 0, "maxage": 60, "delay_ms": delay_ms, "start_ms": at})
+        else:
+            reqs.append({"path": rng.choice(["/x", "/y"]), "v": rng.choice([0, 1, 2, 3]), "maxage": 60, "start_ms": at})
+    if with_pass:
+        reqs.append({"path": "/slow", "v": 1, "maxage": 60, "delay_ms": delay_ms, "start_ms": delay_ms // 2})
+    return vs, reqs
+
+
+def plugin_timeout_ms():
+    """the per-plugin timeout of customLint as the translator read it from the source"""
+    txt = V._read(os.path.join(V.COQ, "Gen", "SchedShape.v")) or ""
+    m = re.search(r"plugin_timeout_ms : N := (\d+)%N", txt)
+    return int(m.group(1)) if m else 5000
+
+
+def slow_plugin_case(tag, durations_ms):
+    """NUMBER and DURATION of plugins: many plugins on one statement, each well within the per-plugin timeout,
+    their SUM far beyond it; every diagnostic must be reported, nothing may be reported as failed"""
+    names, expect = [], []
+    for j, dur in enumerate(durations_ms):
+        name = "c18s%sp%d" % (tag, j)
+        msgs = ["%s-diag%d" % (name, t) for t in range(1 + j % 3)]
+        C.write_plugin(name, msgs, sleep_ms=dur)
+        names.append(name)
+        expect += msgs
+    vcl = "sub vcl_recv {\n" + "".join("  // @plugin: %s\n" % nm for nm in names) + '  set req.http.X-C18 = "1";\n}\n'
+    return vcl, expect, {"vcl": vcl, "procs": 4}
+
+
+class Background(threading.Thread):
+    """a batch that mostly sleeps (slow origin, slow plugins): runs beside the fast batches"""
+    def __init__(self, cmd, reqs, env):
+        super().__init__()
+        self.cmd, self.reqs, self.env, self.rep = cmd, reqs, env, None
+
+    def run(self):
+        self.rep = V.run_batch(self.cmd, self.reqs, hang_s=180, env=self.env)
 
 
 def per_request(canon, order):
@@ -109,8 +159,37 @@ def run(ctx):
         d["vcl"] = with_seq(d["vcl"])
         d.update({"procs": PROCS[b % 4], "jitter_us": rng.choice([0, 50, 500, 3000]), "seed": rng.randrange(1 << 30)})
         cases.append((vs, reqs, d))
+    # slow origins and slow plugins mostly sleep: they run beside the fast batches
+    T = plugin_timeout_ms()
+    slow_specs = [(1200, 3, False), (2500, 4, False), (3500, 5, False)]
+    if thorough:
+        slow_specs += [(300, 3, False), (800, 6, True), (2100, 4, True), (3000, 8, False), (4500, 5, False),
+                       (S.BACKEND_TIMEOUT_MS + 1000, 3, False)]
+    slow_cases = []
+    for k, (delay, nf, wp) in enumerate(slow_specs):
+        vs, reqs = slow_origin_case(rng, delay, nf, wp)
+        _, ireq, _ = S.model_request(vs, reqs)
+        d = json.loads(ireq)
+        d["vcl"] = with_seq(d["vcl"])
+        d.update({"procs": PROCS[k % 4], "jitter_us": 0, "seed": k})
+        slow_cases.append((vs, reqs, d))
+    nthreads = 3
+    groups = [slow_cases[g::nthreads] for g in range(nthreads)]
+    bg_conc = [Background([race, "conc"], [json.dumps(c[2]) for c in grp], env) for grp in groups if grp]
+    slow_lint = [slow_plugin_case("a", [int(0.48 * T)] * 10)]
+    if thorough:
+        slow_lint += [slow_plugin_case("b", [int(0.6 * T)] * 6), slow_plugin_case("c", [int(0.7 * T)] * 8),
+                      slow_plugin_case("d", [int(T * f) for f in (0, 0.1, 0.2, 0.3, 0.4, 0.5, 0.6, 0.7, 0.8, 0.05)])]
+    bg_lint = Background([race, "conc-lint"], [json.dumps(c[2]) for c in slow_lint], env)
+    for t in bg_conc + [bg_lint]:
+        t.start()
     irep = V.run_batch([race, "conc"], [json.dumps(c[2]) for c in cases], hang_s=120, env=env)
+    for t, grp in zip(bg_conc, [g for g in groups if g]):
+        t.join()
+        cases += grp
+        irep += t.rep
     checked = perm_searched = perm_matches = 0
+    slow_checked = origin_fetches = 0
     orders = set()
     by_n, by_procs = {}, {}
     todo = []      # model requests
@@ -144,6 +223,24 @@ def run(ctx):
             ctx.violation("shared rate counter under %d concurrent requests: values seen %s, final total %s (lost or duplicated update)" % (n, sorted(vals), total),
                           dict(replay, seq=seq))
             continue
+        # direct oracle 3: origin fetches. Every vcl_fetch entry of a flow is one request to the origin, and a
+        # cacheable URL that is only looked up is fetched exactly once however long the origin takes
+        by_uri, lookups_only = {}, {}
+        for rq, ir_, x in zip(reqs, d["reqs"], out["res"]):
+            if rq.get("delay_ms", 0) > S.BACKEND_TIMEOUT_MS:
+                continue
+            by_uri[ir_["url"]] = by_uri.get(ir_["url"], 0) + (x.get("flows") or []).count("vcl_fetch")
+            lookups_only[ir_["url"]] = lookups_only.get(ir_["url"], True) and rq.get("v", 0) == 0
+        got_origin = out.get("origin_by_url") or {}
+        bad_origin = [(u, k, got_origin.get(u, 0)) for u, k in by_uri.items() if got_origin.get(u, 0) != k]
+        bad_origin += [(u, 1, got_origin.get(u, 0)) for u, lo in lookups_only.items() if lo and got_origin.get(u, 0) > 1]
+        origin_fetches += sum(got_origin.values())
+        if bad_origin:
+            ctx.violation("%d concurrent requests: the origin was fetched %d times for %s; one-at-a-time processing fetches it %d time(s)" % (
+                n, bad_origin[0][2], bad_origin[0][0], bad_origin[0][1]), dict(replay, seq=seq, origin_by_url=got_origin))
+            continue
+        if any(rq.get("delay_ms") for rq in reqs):
+            slow_checked += 1
         order = sorted(range(n), key=lambda i: seq[i])
         todo.append((vs, reqs, d, out, order, replay))
         orders.add(tuple(order))
@@ -210,6 +307,9 @@ def run(ctx):
                 for procs in PROCS:
                     lint_cases.insert(0, (cj["vcl"], expect, {"vcl": cj["vcl"], "procs": procs}))
     lrep = V.run_batch([race, "conc-lint"], [json.dumps(c[2]) for c in lint_cases], hang_s=120, env=env)
+    bg_lint.join()
+    lint_cases += slow_lint
+    lrep += bg_lint.rep
     lint_ok = diag_total = 0
     for (vcl, expect, d), lr in zip(lint_cases, lrep):
         replay = {"implrun_race_conc_lint_request": d, "expected_messages": expect, "plugin_dir": C.plugin_dir()}
@@ -219,9 +319,14 @@ def run(ctx):
                 else "concurrent lint plugins: harness %s" % (lr or "no reply")[:200]
             ctx.violation(what, dict(replay, reply=lr, race_report=rep))
             continue
-        got = [m for m in json.loads(lr)["messages"] if "-diag" in m]
+        msgs = json.loads(lr)["messages"]
+        got = [m for m in msgs if "-diag" in m]
         diag_total += len(expect)
-        if sorted(got) != sorted(expect):
+        failed = [m for m in msgs if "fail" in m.lower() or "not found" in m.lower()]
+        if failed:
+            ctx.violation("lint plugins: %d plugins on one statement, each within the per-plugin timeout: %d reported as failed (%s)" % (
+                vcl.count("@plugin"), len(failed), failed[0][:120]), dict(replay, got=msgs))
+        elif sorted(got) != sorted(expect):
             missing = sorted(set(expect) - set(got))
             ctx.violation("lint plugins: %d diagnostics returned by the plugins, %d reported (missing %s)" % (len(expect), len(got), missing[:4]),
                           dict(replay, got=got))
@@ -237,7 +342,9 @@ def run(ctx):
     ctx.coverage.update({
         "evaluations": len(cases) + len(lint_cases) + len(mreqs),
         "distinct_nontrivial": len(orders) + lint_ok,
-        "concurrent_batches": len(cases), "batches_equal_to_model_in_recorded_order": checked,
+        "concurrent_batches": len(cases), "slow_origin_batches": slow_checked,
+        "slow_origin_delays_ms": [c[0] for c in slow_specs], "origin_fetches_counted": origin_fetches,
+        "slow_plugin_batches": [(c[0].count("@plugin"), "sum of run times / per-plugin timeout read from the source (%d ms)" % T) for c in slow_lint], "batches_equal_to_model_in_recorded_order": checked,
         "distinct_acquisition_orders_observed": len(orders), "batches_by_request_count": by_n, "batches_by_gomaxprocs": by_procs,
         "batches_with_all_permutations_searched": perm_searched, "matching_permutations_total": perm_matches,
         "model_runs": len(mreqs),
